@@ -43,7 +43,11 @@ TRUSTED = ["CPython's documented contract that every global named by GLOBAL / ST
            "cross-checked opcode by opcode against pickletools.genops; number text outside the canonical decimal forms and STRING escapes "
            "are oracles measured on the real unpickler",
            "calls are symbolic in the model: whether an allowed constructor raises is an oracle (call_ok / build_ok) that the "
-           "harness measures by calling the real constructor on the same arguments"]
+           "harness measures by calling the real constructor on the same arguments",
+           "source tie 'unpickler': harness/translate/unpickler.py (Python ast -> Gallina, fail closed) and the meaning Pickle/SrcPrims.v "
+           "gives to the Python expression forms it accepts are trusted for the fragment SAFE_TO_IMPORT / _RestrictedUnpickler.__init__ / "
+           "find_class / persistent_load / pickle_load / _RestrictedPickler.persistent_id only, in addition to - not instead of - the "
+           "correspondence check"]
 ASSUMPTIONS = ["the theorems quantify over every world (allow-list, sys.modules content, call/build oracles, extension registry); "
                "the guard of the _partial theorem is that copyreg's process-wide extension cache holds no forbidden global"]
 
